@@ -36,3 +36,33 @@ package support
 
 //@ func (*defaultSingletonComponentRegistry).IsSingletonCurrentlyInCreation
 //@ implements container.SingletonComponentRegistry
+
+// ---- definition registry and singleton registry (C07) -------------------------------------------------------------
+//@ bind (r *defaultDefinitionRegistry) container.DefinitionRegistry.DefRep = r.metaMaps != nil
+//@ bind (r *defaultDefinitionRegistry) container.DefinitionRegistry.DefDom = r.metaMaps.Dom
+//@ bind (r *defaultDefinitionRegistry) container.DefinitionRegistry.Def = r.metaMaps.Val
+
+//@ func (*defaultDefinitionRegistry).GetMetaByName
+//@ implements container.DefinitionRegistry
+
+// The singleton registry maps component names to registered components; an existing entry is never replaced.
+//@ func (*registry).RegisterSingleton
+//@ property C07
+//@ requires [registry-built] r.componentsMap != nil
+//@ requires [plain-component] !typeIs(singleton, reflect.Value) && !implements(singleton, reflect.Type)
+//@ assigns r.componentsMap.Dom, r.componentsMap.Val
+//@ ensures [no-two-under-one-name] forall(k, string, implies(r.componentsMap.Dom[k], (old(r.componentsMap.Dom[k]) && r.componentsMap.Val[k] == old(r.componentsMap.Val[k])) || (k == NameOf(singleton) && !old(r.componentsMap.Dom[k]) && r.componentsMap.Val[k] == singleton)))
+//@ ensures [existing-kept] forall(k, string, implies(old(r.componentsMap.Dom[k]), r.componentsMap.Dom[k] && r.componentsMap.Val[k] == old(r.componentsMap.Val[k])))
+//@ ensures [registered-under-its-name] r.componentsMap.Dom[NameOf(singleton)]
+
+//@ func (*registry).GetSingleton
+//@ property C07
+//@ requires [registry-built] r.componentsMap != nil
+//@ assigns nothing
+//@ ensures [lookup] implies(r.componentsMap.Dom[name], result0 == r.componentsMap.Val[name] && result1 == nil) && implies(!r.componentsMap.Dom[name], result1 != nil)
+
+//@ func (*registry).ContainsSingleton
+//@ property C07
+//@ requires [registry-built] r.componentsMap != nil
+//@ assigns nothing
+//@ ensures [contains] result == r.componentsMap.Dom[name]
